@@ -147,14 +147,14 @@ CLAIMED = {
             "OwnedTxOut::recover_key on every owned output of sender-built transactions; library = model = python.",
             "PARTIAL: group laws are hypotheses (EdLaws); model hand-written from onetime_key.rs / transaction.rs",
             "Coq proof over an abstract group (partial) + correspondence", "4 C09"),
-    "C04": ("proof, partial. Coq theorems (Props/C04.v, 66), for all inputs and size tables: no consensus decoder of the model returns Panic or "
+    "C04": ("proof, partial. Coq theorems (Props/C04.v, 67), for all inputs and size tables: no consensus decoder of the model returns Panic or "
             "runs out of fuel (the codec has no fuel); loop bounds (a completed rep has n <= |input|, iterations <= |input|+1 also on the error "
             "path; zero-column MLSAG rows are the only non-consuming element and are unreachable from dec_tx); every allocation request <= 32 MiB "
-            "and kept requests linear in consumed bytes (worst ratio TxIn 64/2); tree-hash assert / block-id unwrap / ring checked_sub "
+            "and the TOTAL of kept allocations of a successful transaction / block parse is <= A + B*|input| (C04_alloc_kept_total, worst ratio TxIn 64/2); tree-hash assert / block-id unwrap / ring checked_sub "
             "unreachable on parsed objects; all text parsers total. Runtime behaviour (unwinding, aborts, hangs, heap peak <= 129 MiB + 96*|input|) "
             "observed on ~1.3*10^5 adversarial evaluations in release and overflow-checking builds incl. operations on parsed objects and scanning "
             "with empty / reversed / extreme index ranges.",
-            "PARTIAL: the total live-allocation bound is argued from two proved ingredients, not proved; hashing / formatting / scanning of parsed "
+            "PARTIAL: the kept total is proved, the in-flight part of the live-allocation bound (32 MiB cap x nesting depth) is argued, not proved; hashing / formatting / scanning of parsed "
             "objects and everything inside dependencies (dalek, tiny-keccak, base58-monero, hex, std), stack depth, wall clock and the real "
             "allocator are observed, not modelled",
             "Coq proof of the logic (partial) + runtime observation on the real crate in both profiles", "4 C04"),
